@@ -351,7 +351,15 @@ impl Plane {
   // FIXME this finalization is needed because the initialization must be fixed and generating plane in canvas must be fixed
   // TODO check if the plane is rectangular.
   pub fn finalize(&mut self) -> Result<()> {
-    self.content.remove(self.content.len() - 1);
+    self.content.pop();
+    // the plane must be rectangular: every row has the same, non-zero number of cells
+    let width = self.width();
+    if width == 0 {
+      return Err(plane_is_empty());
+    }
+    if self.content.iter().any(|row| row.len() != width) {
+      return Err(plane_is_not_rectangular());
+    }
     Ok(())
   }
   /// Returns rectangle containing input clauses in horizontal table.
@@ -469,7 +477,7 @@ impl Plane {
   /// Checks if rule numbers are placed on the left side below horizontal output double line.
   fn recognize_horizontal_rule_numbers(&self) -> Result<RuleNumbersPlacement> {
     let mut row = 0;
-    while !self.is_horizontal_output_double_line(row, 0) {
+    while row < self.content.len() && !self.is_horizontal_output_double_line(row, 0) {
       row += 1;
     }
     row += 1;
@@ -499,9 +507,12 @@ impl Plane {
   }
   /// Checks if rule numbers are placed on the right side after vertical output double line.
   fn recognize_vertical_rule_numbers(&self) -> Result<RuleNumbersPlacement> {
+    if self.content.is_empty() {
+      return Ok(RuleNumbersPlacement::NotPresent);
+    }
     let mut col = 0;
     let row = self.content.len() - 1;
-    while !self.is_vertical_output_double_line(row, col) {
+    while col < self.content[row].len() && !self.is_vertical_output_double_line(row, col) {
       col += 1;
     }
     col += 1;
